@@ -10,7 +10,7 @@
 import Lace.Model.Run
 import Lace.Model.Cmd.Types
 namespace Lace.Dbg
-open Lace
+open Lace Lace.Cmd
 
 /-! ### Breakpoints (`breakpoint.rs`) -/
 
